@@ -13,6 +13,7 @@
 # limitations under the License.
 """Methods for checkpointing."""
 
+import glob
 import os.path
 import re
 from typing import Any, List, Optional, Tuple
@@ -27,9 +28,10 @@ _CHECKPOINT_PREFIX = 'checkpoint_'
 
 def _get_checkpoint_paths(base_path: str) -> List[str]:
   """Returns all checkpoint paths present."""
-  pattern = base_path + r'[0-9]{8}$'
+  # base_path is a literal path prefix, not a regex/glob pattern.
+  pattern = re.escape(base_path) + r'[0-9]{8}$'
   checkpoint_paths = []
-  for path in tf.io.gfile.glob(base_path + '*'):
+  for path in tf.io.gfile.glob(glob.escape(base_path) + '*'):
     if re.match(pattern, path):
       checkpoint_paths.append(path)
 
